@@ -193,7 +193,9 @@ func runC04(c *ShardCtx) {
 			},
 			// labels that are not direct items of the rule's sequence: in a parenthesised
 			// sub-sequence, under a nested action
-			func() *peg.Expr { return peg.Seq(lit("("), peg.Seq(peg.Label("k", lit("x")), lit(":"), peg.Label("w", lit("x"))), lit(")")) },
+			func() *peg.Expr {
+				return peg.Seq(lit("("), peg.Seq(peg.Label("k", lit("x")), lit(":"), peg.Label("w", lit("x"))), lit(")"))
+			},
 			func() *peg.Expr { return peg.Seq(peg.Action(0, peg.Label("k", lit("x"))), lit(";")) },
 		}
 		for li, lb := range leafBodies {
@@ -235,7 +237,9 @@ func runC04(c *ShardCtx) {
 			func() *peg.Rule { return &peg.Rule{Name: "U", Expr: peg.Plus(peg.Cls(false, false, `\pL`, `\p{Nd}`))} },
 			func() *peg.Rule { return &peg.Rule{Name: "P", Expr: peg.Star(peg.Cls(false, true, "a-c", " "))} },
 			func() *peg.Rule { return &peg.Rule{Name: "T", Expr: peg.Seq(peg.StateCode(0), lit("t"))} },
-			func() *peg.Rule { return &peg.Rule{Name: "R", Expr: peg.Choice(peg.Seq(peg.Ref("R"), lit("r")), lit("q"))} },
+			func() *peg.Rule {
+				return &peg.Rule{Name: "R", Expr: peg.Choice(peg.Seq(peg.Ref("R"), lit("r")), lit("q"))}
+			},
 		}
 		perms := [][]int{{0, 1, 2, 3}, {1, 0, 3, 2}, {3, 2, 1, 0}, {2, 0, 1, 3}, {0, 3, 2, 1}, {1, 2, 3, 0}}
 		for pi, pm := range perms {
